@@ -70,6 +70,9 @@ def run(tier, replay=None):
     rep.extra['programs'] = programs
     rep.extra['disagreements_checked'] = len([o for o in rep.obls if not o.ok])
     rep.extra['pair_samples'] = samples
+    # the feature that selects this code must be reachable from the crate a user enables it on (manifest wiring)
+    from .. import features
+    features.check(rep)
     rep.explanation = ('For each crate and each feature set F, every function body, type, impl, static and root item of the base build is compared with the '
                        'build with F enabled (canonical MIR, DefIndex numbers and crate disambiguators stripped); bodies only in F are additions. '
                        'One named exception: character_direction, whose content is decided by the cascade rule of C14 in both configurations.')
